@@ -95,6 +95,101 @@ PEER_DESERIALIZE = [
     'else:\n    return DistributedMessage.deserialize_request(message_data)']
 
 
+# Helpers the modelled behaviour relies on although they are not named in the properties' anchors
+# (phase 8).  (file relative to src/aioslsk, dotted name inside the module) -> fingerprint of the normalised
+# source (docstrings removed).  An edit is a broken tie; the directed scenarios of checks/c01.py / c02.py
+# exercise them (send paths, reader loop with suspending / raising / late / re-entrant listeners, accept path).
+HELPER_PINS = {
+    # exception hierarchy: what `except Exception` / `except ConnectionReadError` / MessageDeserializationError catch
+    ('exceptions.py', 'AioSlskException'): '8d481413983203fda3d4',
+    ('exceptions.py', 'UnknownMessageError'): 'ad21800844681c32a8df',
+    ('exceptions.py', 'MessageSerializationError'): '3ff60b8ae721a855b067',
+    ('exceptions.py', 'MessageDeserializationError'): 'aa6e5e04351eec7bad29',
+    ('exceptions.py', 'NetworkError'): '964e3cd5879f7da48678',
+    ('exceptions.py', 'ConnectionReadError'): '4e43aeb58a35142a3153',
+    ('exceptions.py', 'ConnectionWriteError'): '14c71769949d980906cd',
+    # connection state machine pieces the reader / sender rely on
+    ('network/connection.py', 'ConnectionState'): '562e5438a5d09c85ec6f',
+    ('network/connection.py', 'CloseReason'): '9a2451e4d46a5b794858',
+    ('network/connection.py', 'PeerConnectionState'): '14e234dee5bee1f6f7b7',
+    ('network/connection.py', 'PeerConnectionType'): 'd37b987839d1e72177fa',
+    ('network/connection.py', 'Connection.set_state'): 'b3199394ab2e2e661b56',
+    ('network/connection.py', 'ListeningConnection.accept'): '8ec0b0ab98a4bd208b55',
+    ('network/connection.py', 'DataConnection.disconnect'): '33643816c1136c58f325',
+    ('network/connection.py', 'DataConnection.start_reader_task'): 'c73b322cfcb3bfc737fa',
+    ('network/connection.py', 'DataConnection.stop_reader_task'): '6edba215b05fd9298451',
+    ('network/connection.py', 'DataConnection._increase_read_timeout'): '2eb4f58ec338839c80d7',
+    ('network/connection.py', 'DataConnection._cancel_queued_messages'): 'f700acfa60e729b1a937',
+    ('network/connection.py', 'DataConnection._disconnect_detached'): '88b3503a91e387ce1ebf',
+    ('network/connection.py', 'PeerConnection.set_connection_state'): '58ec388f0af08f85b9aa',
+    # obfuscation key source of encode(data) without key
+    ('protocol/obfuscation.py', 'generate_key'): '81ce6bb681ac38fe3b0a',
+    # what runs inside the reader task for every message
+    ('network/network.py', 'Network.on_message_received'): '4ff49c46728c27a3bbb6',
+    ('network/network.py', 'Network.on_peer_accepted'): '739d0897f1a37d189070',
+    ('network/network.py', 'Network._finalize_peer_connection'): '1ab642de4b8009723dd7',
+    ('network/network.py', 'Network.remove_peer_connection'): 'ec081e53dcbf2d98440f',
+    ('network/network.py', 'Network.on_state_changed'): 'a6f74755bd8acc1e26ea',
+    ('network/network.py', 'Network._on_peer_connection_state_changed'): 'a66fe634fa8059a1cd90',
+    ('network/network.py', 'ExpectedResponse.matches'): '5f903da21c7298c81ed3',
+    ('events.py', 'on_message'): '5173700ab2c456a402fc',
+    ('events.py', 'build_message_map'): 'd65dbd546a64746a3bff',
+    ('events.py', 'EventBus.register'): '941a145444e4b8312684',
+    ('events.py', 'EventBus.emit'): 'd51af297f222c9896655',
+    ('events.py', 'EventBus._get_listeners_for_event'): 'dbf0da8bee9be3792ec5',
+    ('events.py', 'EventBus._remove_callback'): '0115374501632a5053db',
+    # the repaired F07 site and the task wrapper it uses
+    ('search/manager.py', 'SearchManager._on_wish_list_interval'): '4b686a23e5e682f59ada',
+    ('tasks.py', 'BackgroundTask.start'): '2dd14f0bbf3a935ea9ff',
+    ('tasks.py', 'BackgroundTask.cancel'): '40707824c183f94b3ead',
+    ('tasks.py', 'BackgroundTask.runner'): 'b838a01843b1d07f2b3d',
+    ('utils.py', 'task_counter'): 'fb0a9c1e087e6024432d',
+}
+
+
+def _find_node(tree, dotted: str):
+    node = tree
+    for part in dotted.split('.'):
+        found = None
+        for n in node.body:
+            if isinstance(n, (ast.ClassDef, ast.FunctionDef, ast.AsyncFunctionDef)) and n.name == part:
+                found = n
+            elif isinstance(n, (ast.Assign, ast.AnnAssign)):
+                tg = n.targets[0] if isinstance(n, ast.Assign) else n.target
+                if isinstance(tg, ast.Name) and tg.id == part:
+                    found = n
+        if found is None:
+            raise Refuse(f'helper {dotted}: not found')
+        node = found
+    return node
+
+
+def _norm_fp(node) -> str:
+    node = ast.parse(ast.unparse(node)).body[0]
+    for n in ast.walk(node):
+        body = getattr(n, 'body', None)
+        if isinstance(body, list):
+            nb = [x for x in body if not (isinstance(x, ast.Expr) and isinstance(x.value, ast.Constant) and isinstance(x.value.value, str))]
+            n.body = nb or [ast.Pass()]
+    return hashlib.sha256(ast.dump(node).encode()).hexdigest()[:20]
+
+
+def helper_fingerprints(src: Path) -> dict:
+    out, trees = {}, {}
+    for (rel, name) in HELPER_PINS:
+        if rel not in trees:
+            trees[rel] = ast.parse((src / 'aioslsk' / rel).read_text())
+        out[(rel, name)] = _norm_fp(_find_node(trees[rel], name))
+    return out
+
+
+def check_helper_pins(src: Path):
+    got = helper_fingerprints(src)
+    bad = [f'{rel}:{name}' for (rel, name), fp in got.items() if fp != HELPER_PINS[(rel, name)]]
+    if bad:
+        raise Refuse('helper code the reader / sender / handler-hypothesis model relies on was edited (pinned by fingerprint): ' + ', '.join(bad))
+
+
 def body_texts(fn) -> list:
     out = []
     for s in fn.body:
@@ -124,6 +219,8 @@ def match(name: str, actual: list, shape: list) -> dict:
 
 
 def translate(src: Path) -> dict:
+    # (helper pins are checked by the property checks themselves -- check_helper_pins -- so that an edited helper is a
+    #  broken tie without switching off the model comparison)
     tree = ast.parse((src / 'aioslsk' / 'network' / 'connection.py').read_text())
     obf_tree = ast.parse((src / 'aioslsk' / 'protocol' / 'obfuscation.py').read_text())
     key_size = int_const(obf_tree.body, 'KEY_SIZE')
@@ -198,7 +295,10 @@ def current_fingerprints(src: Path) -> dict:
 if __name__ == '__main__':
     import json
     import sys
-    if len(sys.argv) > 1 and sys.argv[1] == '--fingerprints':
+    if len(sys.argv) > 1 and sys.argv[1] == '--helpers':
+        for (rel, name), fp in helper_fingerprints(Path('/repo/src')).items():
+            print(f"    ({rel!r}, {name!r}): {fp!r},")
+    elif len(sys.argv) > 1 and sys.argv[1] == '--fingerprints':
         print(json.dumps(current_fingerprints(Path('/repo/src')), indent=1))
     else:
         print(translate(Path('/repo/src'))['ConnGen.v'])
